@@ -69,7 +69,10 @@ EXC_NAMES = set(core.EXC_PARENTS)
 class LoopSpec:
     """sidecar loop contract: invariant(env)->bool, optional decreases(env)->int, havoc kinds"""
 
-    def __init__(self, anchor, invariant, decreases=None, havoc=None, label=None, ghost_step=None):
+    def __init__(self, anchor, invariant, decreases=None, havoc=None, label=None, ghost_step=None, callee_frame=None):
+        # callee_frame="harness": what the methods called on self in the body change is havocked BY THE HARNESS (ghost hook) and closed by
+        # its own frame obligation; otherwise the attributes those methods store through self are havocked automatically
+        self.callee_frame = callee_frame
         self.anchor = anchor
         self.invariant = invariant
         self.decreases = decreases
